@@ -235,6 +235,14 @@ fn num_token(rng: &mut Rng) -> String {
         _ => 100.0,
     };
     let x = ((rng.u64() as i64 as f64) / (i64::MAX as f64)) * mag;
+    if wide() && rng.chance(1, 8) {
+        // a very long but perfectly legal numeral
+        return match rng.below(3) {
+            0 => format!("{:.*}", rng.usize(30, 300), x),
+            1 => format!("{}{:.3}", "0".repeat(rng.usize(20, 280)), x.abs()),
+            _ => format!("{:.3}e{}{}", x / mag, "0".repeat(rng.usize(10, 270)), rng.range(0, 3)),
+        };
+    }
     match rng.below(14) {
         0 => format!("{}", rng.range(0, 20) as i64 - 10),
         1 => format!("{:.1}", x),
@@ -265,12 +273,31 @@ fn num_token(rng: &mut Rng) -> String {
     }
 }
 
+thread_local! {
+    /// Layout knob of the file being generated: occasionally separators, indentation,
+    /// comments and numerals are hundreds of characters long.
+    static WIDE: std::cell::Cell<bool> = const { std::cell::Cell::new(false) };
+}
+
+fn wide() -> bool {
+    WIDE.with(|w| w.get())
+}
+
 fn ws(rng: &mut Rng, min: usize) -> String {
-    let n = if rng.chance(3, 4) { min.max(1) } else { rng.usize(min.max(1), 4) };
+    let n = if wide() && rng.chance(1, 6) {
+        rng.usize(5, 300)
+    } else if rng.chance(3, 4) {
+        min.max(1)
+    } else {
+        rng.usize(min.max(1), 4)
+    };
     (0..n.max(min)).map(|_| if rng.chance(1, 6) { '\t' } else { ' ' }).collect()
 }
 
 fn indent(rng: &mut Rng) -> String {
+    if wide() && rng.chance(1, 5) {
+        return (0..rng.usize(5, 300)).map(|_| if rng.chance(1, 5) { '\t' } else { ' ' }).collect();
+    }
     if rng.chance(2, 3) {
         String::new()
     } else {
@@ -292,6 +319,36 @@ const COMMENTS: [&str; 10] = [
 ];
 
 pub fn gen_obj(rng: &mut Rng) -> GenObj {
+    WIDE.with(|w| w.set(false));
+    let is_wide = rng.chance(1, 14);
+    WIDE.with(|w| w.set(is_wide));
+    let g = gen_obj_inner(rng);
+    WIDE.with(|w| w.set(false));
+    g
+}
+
+/// A mesh far larger than any fixed-width index or buffer a parser might be tempted
+/// to use: more than 65 536 vertices, one face on the last of them.
+pub fn gen_obj_jumbo(rng: &mut Rng) -> GenObj {
+    let nv = rng.usize(65_537, 70_000);
+    let mut text = Vec::with_capacity(nv * 10);
+    let mut verts = Vec::with_capacity(nv);
+    for i in 0..nv {
+        let t = [(i % 7) as f32, (i % 11) as f32 * 0.5, -((i % 13) as f32)];
+        text.extend_from_slice(format!("v {} {} {}\n", t[0], t[1], t[2]).as_bytes());
+        verts.push(t.map(f32::to_bits));
+    }
+    let mut tris = vec![];
+    for _ in 0..rng.usize(1, 6) {
+        let tri = [nv - 1, rng.below(nv as u64) as usize, rng.usize(65_536, nv - 1)];
+        text.extend_from_slice(format!("f {} {} {}\n", tri[0] + 1, tri[1] + 1, tri[2] + 1).as_bytes());
+        tris.push(tri);
+    }
+    let len = text.len();
+    GenObj { text, verts, tris, hot: vec![0, len / 2, len], lines: vec![], mutated: false }
+}
+
+fn gen_obj_inner(rng: &mut Rng) -> GenObj {
     let large = rng.chance(1, 20);
     let nv = if large { rng.usize(100, 400) } else { rng.small(40) as usize };
     let nt = if nv == 0 { 0 } else if large { rng.usize(50, 300) } else { rng.small(60) as usize };
@@ -432,7 +489,11 @@ pub fn gen_obj(rng: &mut Rng) -> GenObj {
                     push_line(&mut text, &w, rng, false, true)
                 }
                 2 => {
-                    let c = format!("{}{}", indent(rng), rng.pick(&COMMENTS));
+                    let c = if wide() {
+                        format!("{}# {}", indent(rng), "long comment f 1 2 3 ".repeat(rng.usize(5, 500)))
+                    } else {
+                        format!("{}{}", indent(rng), rng.pick(&COMMENTS))
+                    };
                     push_line(&mut text, &c, rng, false, true)
                 }
                 _ => push_line(&mut text, *rng.pick(&COMMENTS), rng, false, true),
@@ -570,6 +631,27 @@ pub fn mutate_obj(rng: &mut Rng, g: &mut GenObj) {
 // ---------------------------------------------------------------------------
 // Scenario generation (seeded search)
 // ---------------------------------------------------------------------------
+
+/// Jumbo scenario: benign stream over a very large file.
+pub fn gen_jumbo(seed: u64) -> (ObjScenario, &'static str, Option<String>) {
+    let mut rng = Rng::new(seed);
+    let g = gen_obj_jumbo(&mut rng);
+    let mut self_check = None;
+    match ref_obj(&g.text) {
+        RefObj::Accept { verts, tris } if verts == g.verts && tris == g.tris => {}
+        _ => self_check = Some("reference disagrees with generator on a jumbo file".to_string()),
+    }
+    let len = g.text.len();
+    let mut reader = gen_reader_benign(&mut rng, len);
+    // one byte at a time over a megabyte is all cost and no extra coverage
+    if reader.chunks.iter().all(|&c| c != 0 && c < 64) {
+        reader.chunks = vec![4096, 1000, 0, 7];
+    }
+    if let RStack::Buf { cap, .. } | RStack::ChainBuf { cap, .. } = &mut reader.stack {
+        *cap = (*cap).max(512);
+    }
+    (ObjScenario { text: g.text, disk: vec![], reader }, "search:jumbo", self_check)
+}
 
 pub fn gen_scenario(seed: u64) -> (ObjScenario, &'static str, Option<String>) {
     let mut rng = Rng::new(seed);
@@ -764,6 +846,27 @@ pub fn run(scn: &ObjScenario, record: bool) -> RunResult {
         }
     }
 
+    // --- F: a failing stream may cost the result, never falsify it -----------------------
+    if rd_err > 0 {
+        if let (RefObj::Accept { verts, tris }, Some(sout)) = (&refv, &streamed_out) {
+            let want = ObjOut::Ok { verts: verts.clone(), tris: tris.clone() };
+            let ok = matches!(sout, ObjOut::Err(_)) || *sout == want;
+            rr.oracle("F", ok);
+            if !ok {
+                rr.violate(Violation::new(
+                    "F",
+                    format!("wrong-mesh-after-read-error:{}", diff(sout, &want)),
+                    format!(
+                        "the source failed with an I/O error after {delivered} of {} bytes of a well-formed file, and read_obj answered {} instead of an error (the file holds {})",
+                        bytes.len(),
+                        sout.brief(),
+                        want.brief()
+                    ),
+                ));
+            }
+        }
+    }
+
     // --- probes ------------------------------------------------------------------------
     if rd_err > 0 {
         rr.probe("read error fired");
@@ -834,7 +937,25 @@ pub fn stacks(scn: &ObjScenario) -> Vec<String> {
 // Minimisation candidates
 // ---------------------------------------------------------------------------
 
-fn shift_faults(disk: &[DiskFault], a: usize, b: usize) -> Vec<DiskFault> {
+/// Reader fault positions after bytes `[a, b)` of the file were removed.
+pub fn shift_reader(r: &ReaderCfg, a: usize, b: usize) -> ReaderCfg {
+    let sh = |p: u32| -> u32 {
+        let p = p as usize;
+        (if p >= b { p - (b - a) } else if p > a { a } else { p }) as u32
+    };
+    let mut r = r.clone();
+    if let Some(e) = &mut r.err {
+        if let At::Byte(p) = e.at {
+            e.at = At::Byte(sh(p));
+        }
+    }
+    if let Some(e) = &mut r.early_eof {
+        e.at_byte = sh(e.at_byte);
+    }
+    r
+}
+
+pub fn shift_faults(disk: &[DiskFault], a: usize, b: usize) -> Vec<DiskFault> {
     // bytes [a, b) of the text were removed
     let sh = |p: u32| -> u32 {
         let p = p as usize;
@@ -911,7 +1032,7 @@ pub fn shrink(s: &ObjScenario) -> Vec<ObjScenario> {
             let (a, b) = (spans[i].0, spans[i + width - 1].1);
             let mut t = s.text[..a].to_vec();
             t.extend_from_slice(&s.text[b..]);
-            out.push(ObjScenario { text: t, disk: shift_faults(&s.disk, a, b), reader: s.reader.clone() });
+            out.push(ObjScenario { text: t, disk: shift_faults(&s.disk, a, b), reader: shift_reader(&s.reader, a, b) });
             i += width;
         }
         if width == 1 {
